@@ -302,6 +302,14 @@ func (OracleC07) sharesWithin(x *Exec, pre, post *Snap, d DelSnap, pk posKey, to
 		sAfter = decRat(sAfterDec)
 	}
 	full := decRat(d.Shares)
+	if sd, ok := post.Vals[pk.T].DelShares[pk.Denom]; !ok || sd.TruncateInt().IsZero() {
+		// the destination's total delegator shares fell below one share during this callback: from
+		// then on the module prices removals 1:1 (its own "no shares yet" convention) — the
+		// ownerless-value regime of the listed finding F-C04a; only the cap applies
+		x.KnownFinding("F-C04a")
+		x.Label("c07:destination-total-below-one-share")
+		return removed.Cmp(full) <= 0
+	}
 	if orphanedValidator(pre, pk.Denom) || degenerateAsset(pre, pk.Denom) {
 		x.Label("c07:ownerless-value-state")
 		return removed.Cmp(full) <= 0 // no meaningful share price (listed finding F-C04a); only the cap applies
